@@ -583,7 +583,7 @@ def run(ctx):
         how = rng.choice(["generator", "generator", "list", "iterator"])
         desc, sources, outcomes, transport, log = build_case(rng, pattern)
         ctx.case(("rand", pattern, how, tuple(desc)),
-                 sample=dict(kind="random", succeeds=list(pattern), sources=desc, get_sources=how) if i < 1 else None)
+                 sample=None)
         judge(ctx, desc, how, sources, outcomes, transport, log)
     for hi in range(ctx.pick(3000, 20000)):
         history_case(ctx, rng, hi)
